@@ -104,6 +104,23 @@ def run(chk):
             chk.fail("turn-off mass is infinite up to the shortest lifetime", c, i[1])
     chk.correspondence("tms / mto (1e-9) vs compute_tms / compute_mto on all table rows", len(cases), dis)
     chk.samples.append(dict(case=cases[3], impl=C.jsonable(impl[3]), model=C.jsonable(model[3])))
+    # ---- the row a model takes its lifetimes from: nearest tabulated metallicity (first on ties), through the constructors --------
+    emf_, masses_, *_ = U.mods()
+    grid_f = [r[0] for r in rows]
+    old_ev = emf_.EvolvedMF._evolve
+    emf_.EvolvedMF._evolve = lambda self: None
+    try:
+        for x in grid_f + [g + d for g in rng.sample(grid_f, 6) for d in (0.04, 0.06, -0.04, -0.06, 0.05)] + [-3.0, -2.6, 0.7, 0.55]:
+            mdl = emf_.EvolvedMF.from_powerlaw([0.1, 0.5, 1.0, 100], [-0.5, -1.3, -2.5], [1, 1, 2], float(x), [100.0], 0)
+            k_near = int(np.argmin(np.abs(np.array(grid_f) - x)))
+            dist = abs(grid_f[k_near] - x)
+            ok_rows = [r for r in rows if abs(abs(r[0] - x) - dist) <= 1e-12]       # all nearest rows (ties at x.x5)
+            chk.count("constructor-level lifetime rows")
+            if not any(np.array_equal(np.array(r[1:]), np.asarray(mdl._tms_constants, dtype=float)) for r in ok_rows):
+                chk.fail("lifetimes are those of the nearest tabulated metallicity", dict(FeH=float(x)),
+                         dict(used=[float(v) for v in mdl._tms_constants], nearest_row_FeH=grid_f[k_near]))
+    finally:
+        emf_.EvolvedMF._evolve = old_ev
     # ---- monotonicity on the implementation ---------------------------
     for r in rows:
         feh, a0, a1, a2 = r
